@@ -354,40 +354,51 @@ def sliceElems (env : Env) (pe : PE) (elems : Sl) (indexes : Option (List Int)) 
 
 /-! ### varInd -/
 
+def Idx.text : Idx → Str
+  | .word t _ => t
+  | .at => ['@']
+  | .star => ['*']
+  | .none => []
+
+/-- `varInd` with `idx == nil`. -/
+def varIndNone (vr : Var) : Except Err (Str × Bool) :=
+  match vr.kind with
+  | .indexed => vr.indexedVal 0
+  | .assoc => match mapGet vr.map ['0'] with | some s => .ok (s, true) | none => .ok ([], false)
+  | _ => do let s ← vr.string; pure (s, vr.set)
+
+def elemOf (vr : Var) (i : Int) : Except Err (Str × Bool) := do
+  let (s, ok) ← vr.indexedVal i
+  pure (if ok then (s, true) else ([], false))
+
+/-- `varInd` with a subscript. -/
+def varIndSome (ifs : Str) (vr : Var) (idx : Idx) : Except Err (Str × Bool) :=
+  match vr.kind with
+  | .string => if arith idx.text == 0 then .ok (vr.str, vr.set) else .ok ([], false)
+  | .indexed =>
+    if idx.lit == ['*'] || idx.lit == ['@'] then .ok (joinWith [' '] vr.list.toList, vr.set)
+    else
+      let i := arith idx.text
+      if i < 0 then
+        (if i + indexedMax vr.list.toList vr.idx + 1 < 0 then .error .negIndex
+         else elemOf vr (i + indexedMax vr.list.toList vr.idx + 1))
+      else elemOf vr i
+  | .assoc =>
+    if idx.lit == ['@'] || idx.lit == ['*'] then
+      let strs := sortStrs (vr.map.map (·.2))
+      if idx.lit == ['*'] then .ok (ifsJoin ifs strs, vr.set) else .ok (joinWith [' '] strs, vr.set)
+    else
+      match idx with
+      | .word t true => match mapGet vr.map t with | some s => .ok (s, true) | none => .ok ([], false)
+      | _ => .error .panic     -- idx.(*syntax.Word) on a non-word subscript such as `-1`
+  | .unknown => .ok ([], false)
+
 def varInd (ifs : Str) (vr : Var) (idx : Idx) : Except Err (Str × Bool) :=
   match idx with
-  | .none =>
-    match vr.kind with
-    | .indexed => vr.indexedVal 0
-    | .assoc => match mapGet vr.map ['0'] with | some s => .ok (s, true) | none => .ok ([], false)
-    | _ => do let s ← vr.string; pure (s, vr.set)
-  | _ =>
-    let text := match idx with | .word t _ => t | .at => ['@'] | .star => ['*'] | .none => []
-    match vr.kind with
-    | .string => if arith text == 0 then .ok (vr.str, vr.set) else .ok ([], false)
-    | .indexed =>
-      if idx.lit == ['*'] || idx.lit == ['@'] then .ok (joinWith [' '] vr.list.toList, vr.set)
-      else
-        let i := arith text
-        let l := vr.list.toList
-        if i < 0 then
-          let i := i + indexedMax l vr.idx + 1
-          if i < 0 then .error .negIndex
-          else do
-            let (s, ok) ← vr.indexedVal i
-            pure (if ok then (s, true) else ([], false))
-        else do
-          let (s, ok) ← vr.indexedVal i
-          pure (if ok then (s, true) else ([], false))
-    | .assoc =>
-      if idx.lit == ['@'] || idx.lit == ['*'] then
-        let strs := sortStrs (vr.map.map (·.2))
-        if idx.lit == ['*'] then .ok (ifsJoin ifs strs, vr.set) else .ok (joinWith [' '] strs, vr.set)
-      else
-        match idx with
-        | .word t true => match mapGet vr.map t with | some s => .ok (s, true) | none => .ok ([], false)
-        | _ => .error .panic     -- idx.(*syntax.Word) on a non-word subscript such as `-1`
-    | .unknown => .ok ([], false)
+  | .none => varIndNone vr
+  | .at => varIndSome ifs vr .at
+  | .star => varIndSome ifs vr .star
+  | .word t w => varIndSome ifs vr (.word t w)
 
 /-! ### assignElem -/
 
